@@ -472,3 +472,38 @@ func genScript(r *hx.Rand, u *rt.Universe, n int) []rt.Def {
 	}
 	return ds
 }
+
+// malformDef breaks one command the way a registry or an operator can: a host or path glob.Compile refuses, a
+// destination url.Parse refuses, and — for structured scripts only (the text grammar cannot express them) — an
+// empty prefix, an empty target or an unknown command. Together with a non-finite weight on the same command
+// this exercises the order of the checks in addRoute / weighRoute / delRoute.
+var badSrcs = []string{"[foo.com/", "foo.com/[a", "foo.com/{a,b", "{foo.com/", "foo.com/a\\", "[/", ":[1"}
+var badDsts = []string{"http://[::1", "%zz", "http://a:1/%zz", ":foo", "http://a:b/", "http://[fe80::1%en0]:1/"}
+
+func malformDef(r *hx.Rand, d *rt.Def, structured bool) {
+	k := r.Intn(6)
+	if !structured && k >= 3 {
+		k = r.Intn(3)
+	}
+	switch k {
+	case 0:
+		if d.Cmd == "del" && len(d.Tags) > 0 {
+			return
+		}
+		d.Src = r.Pick(badSrcs)
+	case 1:
+		if d.Cmd == "add" || (d.Cmd == "del" && d.Src != "" && len(d.Tags) == 0) {
+			d.Dst = r.Pick(badDsts)
+		}
+	case 2: // an existing-looking source with a path no glob accepts, on a host that exists already
+		if i := strings.IndexByte(d.Src, '/'); i >= 0 {
+			d.Src = d.Src[:i] + r.Pick([]string{"/[x", "/{y", "/z\\"})
+		}
+	case 3:
+		d.Src = ""
+	case 4:
+		d.Dst = ""
+	default:
+		d.Cmd = r.Pick([]string{"route foo", "", "ADD", "route add"})
+	}
+}
